@@ -120,6 +120,14 @@ theorem follower_append_refines : type_of% @PSO.Bridge.appendEntries_refines := 
 theorem follower_chunk_refines : type_of% @PSO.Bridge.appendEntries_chunk_refines := @PSO.Bridge.appendEntries_chunk_refines
 theorem follower_finish_refines : type_of% @PSO.Bridge.appendEntries_finish_refines := @PSO.Bridge.appendEntries_finish_refines
 
+/-- A complete snapshot message (`serialized` branch of the `append_entries` handler, `__loadDumpFile(clearJournal=True)`
+with the keep-log guard) is the model's `recvSnapshot`; partial chunks only adopt the term (`observeTerm`).  The
+abstraction of the commit index is `max(commit, lastApplied) − 1` (what `corr.core_trace` compares); `…_S` is the same
+statement for `commit − 1` when `lastApplied ≤ commit`. -/
+theorem snapshot_install_refines : type_of% @PSO.Bridge.snapshot_refines := @PSO.Bridge.snapshot_refines
+theorem snapshot_partial_refines : type_of% @PSO.Bridge.snapshot_partial_refines := @PSO.Bridge.snapshot_partial_refines
+theorem snapshot_install_refines_S : type_of% @PSO.Bridge.snapshot_refines_S := @PSO.Bridge.snapshot_refines_S
+
 /-- Non-vacuity: in the demo run nodes 0 and 1 report positions 0..2 committed, node 2 nothing. -/
 example : ∃ s, Reachable 3 s ∧ (s.nodes 0).commit = 2 ∧ (s.nodes 1).commit = 2 ∧ (s.nodes 2).commit = 0 := by
   obtain ⟨s, _, hr, hs⟩ := demo_reachable
